@@ -35,14 +35,15 @@ CHECKS = {
 
 CHECKS.update({
     "C13": ("fault_enumeration",
-            TECH + "every truncation offset x 6 simulated stream kinds x a seeded call history per generated archive, plus read-error, "
-            "skip-failure and seek-error faults; bounded liveness measured in seam steps, heap measured by the allocator ledger",
+            TECH + "every truncation offset x 6 simulated stream kinds x a seeded call history per generated archive, plus lasting and "
+            "transient read errors, skip-failure and seek-error faults, sources that never end, tool runs with objects in the way; bounded liveness measured in seam steps, heap measured by the allocator ledger",
             "Fault enumeration over truncation offsets and stream kinds (complete for each sampled archive up to 1500 offsets), "
             "exploration over archives (plain, extreme length fields, corrupted, random) and histories. Oracle: stream calls per "
             "drive <= 64 + 2*len + out/8 + 8*ops (about 5x the observed maximum), peak ledgered heap <= 8 MiB + 2*len, CPU watchdog "
-            "for loops that cross no seam; decoders on endless/self-referential input must stop at the declared length.",
+            "for loops that cross no seam; decoders on endless/self-referential input must stop at the declared length; a source that "
+            "never ends and never shows a header is given up within the 256 KiB reach of the header search.",
             "Liveness in simulated steps, not wall time; entries declaring more than 4 MiB are read in bounded pieces rather than "
-            "decoded in full; CLI commands covered by the C08/C07 CLI scenarios, not here.",
+            "decoded in full; tool commands have a family here and are also covered by the C06/C07/C08/C10 scenarios.",
             "DESIGN.md 7 C13"),
     "C15": ("exploration",
             TECH + "seeded call histories and seeded interleavings of 1-3 readers (real threads parked on a baton, switch decisions at "
@@ -51,7 +52,8 @@ CHECKS.update({
             "extraction results and files on SimFS) with a 150-line reference model fed from a canonical traversal; directory "
             "re-presentation per policy, deferred-symlink order, sticky end and reader independence under interleaving are model rules; a third of "
             "the runs repeat every history alone on a fresh filesystem and require identical observations; injected skip failures may end the "
-            "archive early once, nothing else.",
+            "archive early once, nothing else; extraction meets failing system calls and objects in the way (success is demanded only when the "
+            "filesystem refused nothing); the input may end or fail at an arbitrary offset (reference = what the archive yields up to there).",
             "Trusted: H/B/V of the model come from the same library's canonical traversal; SimFS semantics (validated against the kernel); "
             "state shared only inside seam-free stretches is not reachable by the baton schedule.",
             "DESIGN.md 7 C15, appendix D"),
@@ -63,7 +65,7 @@ CHECKS.update({
             "archive read from a seekable file. Prefix bytes are filtered by an independent scanner written from the statement. "
             "Injected stream faults (failing skip, read error): the headers returned must be a prefix of the reference sequence; stored "
             "members containing complete small members ('ghosts'); declared packed sizes up to 2^32-1 incl. values that wrap to a negative "
-            "seek; 'lha CMD ARCHIVE' vs 'lha CMD -' (pipe, seekable stdin).",
+            "seek; near-miss markers and signatures in the prefix; 'lha CMD ARCHIVE' vs 'lha CMD -' (pipe, seekable stdin).",
             "Sources answer short only at end of input; pipes are non-seekable cookie streams; prefixes are a subset of the allowed "
             "ones (filler never contains '-' or 'L').",
             "DESIGN.md 7 C16"),
@@ -72,7 +74,8 @@ CHECKS.update({
             "every prefix and failure of every library allocation are enumerated",
             "Fault enumeration, complete over X-ABANDON(j) for every j and A-FAIL(k) for every k for each sampled pair; exploration "
             "over archives (nested directories, dangerous symlinks, MacBinary members, multi-extended-header levels), histories, "
-            "stream kinds incl. open-by-name, directory policies. Oracle: ledger empty and no handle open after the two free calls; "
+            "stream kinds incl. open-by-name, directory policies, truncated and failing input, failing system calls and objects in the way "
+            "during extraction. Oracle: ledger empty and no handle open after the two free calls; "
             "the call that met the failing allocation returns its failure value (NULL/0, or a re-presented entry before NULL).",
             "libc-internal allocations (stdio buffers) are outside the ledger; sanitizers catch invalid accesses on the failure paths.",
             "DESIGN.md 7 C20"),
@@ -93,7 +96,8 @@ CHECKS.update({
             "length-field perturbations for each sampled header, judged by an independent framing checker",
             "Fault enumeration, complete over the single-fault space for each sampled well-formed header (levels 0-3, files, "
             "directories, symlinks, with/without extended headers, common CRC, Unix area), stream kinds rotating. One-directional "
-            "oracle written from the statement: checker says FAIL => next_file returns NULL for it and for all later calls.",
+            "oracle written from the statement: checker says FAIL => next_file returns NULL for it and for all later calls; single-bit "
+            "header faults are additionally combined with a failure of each of the first ten allocations (A-FAIL).",
             "The checker asserts only the rules listed in DESIGN appendix E; nothing is concluded when it passes a header.",
             "DESIGN.md 7 C12, appendix E"),
     "C18": ("exploration",
@@ -109,7 +113,7 @@ CHECKS.update({
             "seekable) around an independent list renderer fed from generator ground truth",
             "Exploration: stdout of l/lv/v/vv x quiet levels x wildcard lists must equal the reference rendering byte for byte; 'now' and "
             "member time stamps are placed on both sides of the six-month boundary, at 0, 2^31 and 2^32-1; sizes up to 2^32-1; every OS "
-            "byte; Unix and OS-9 permission words; header levels 0-3.",
+            "byte; Unix and OS-9 permission words; header levels 0-3; duplicate member names with name arguments; the one-argument form.",
             "Renderer written from the column specification (DESIGN appendix F); ratio accepted in single or double precision; "
             "printable names only; totals below 2^32; fixed-offset zones (no DST rules).",
             "DESIGN.md 7 C19, appendix F"),
@@ -123,7 +127,8 @@ CHECKS.update({
             "prompt scripts) x uid 0/1000 x umask; the resulting SimFS tree (contents, recorded mtimes, recorded permission bits, link "
             "targets, nothing unexpected, untouched originals) must equal the model tree; stdout for p. The simulated clock makes "
             "'directory keeps its recorded mtime although children were written later' an ordering constraint, uid 1000 makes "
-            "'metadata only after contents' a permission constraint.",
+            "'metadata only after contents' a permission constraint. One run in six has one system call of the extraction fail once "
+            "(F-SYSCALL): the object it was made for is excused, every other entry must still match exactly.",
             "SimFS semantics are validated against the kernel (check selftest simfs); ownership, set-id bits, modes without recorded "
             "permissions and mtimes of directories holding unsafe symlinks are not compared; names are separator-free printable with a lower-case letter.",
             "DESIGN.md 7 C06, appendix G"),
@@ -132,7 +137,9 @@ CHECKS.update({
             "recorded CRC/length; damage in compressed data) judged against the bytes a twin reader actually obtains",
             "Fault enumeration over truncation offsets and bursts for each sampled archive, exploration over archives, stream kinds and "
             "tool invocations. Oracle: lha_reader_check verdict <=> [length and bitwise CRC-16 of the produced bytes equal the header's]; "
-            "'lha t'/'lha x' lines, extracted files and exit status agree; a cut or burst inside a stored member is always bad.",
+            "'lha t'/'lha x' lines, extracted files and exit status (low eight bits, with and without name arguments, up to 512 failing "
+            "members) agree; a cut or burst inside a stored member is always bad; the output medium refusing data from byte n on, or once at "
+            "byte n, for every n, never yields 'Melted'/exit 0 for a file that lacks bytes.",
             "Bursts are consecutive in the bit order CRC-16/ARC processes (LSB of each byte first), the only order for which the 16-bit "
             "guarantee is mathematically true; MacBinary members excluded.",
             "DESIGN.md 7 C07"),
